@@ -203,6 +203,52 @@ def _clients(ctx: Ctx, item=None):
                        f"{sum(1 for m in got if m.hash is None)} without a hash", {"clientopts": True, "kind": kind, "options": "build_network_map=True"})
 
 
+def _deep(ctx: Ctx, item):
+    """One decoder that has hashed many distinct entities (more than 2^16 different key combinations): every further message still gets
+    its hash, the same a fresh decoder computes, and equal keys keep equal hashes."""
+    from nmea2000.decoder import NMEA2000Decoder
+    n, = item
+    db = canboat.db()
+    defs = []
+    for k in ("130312/temperature", "130316/temperatureExtendedRange"):      # key fields: instance x source (8 + 8 bits) each
+        dd = db.by_key[k]
+        bp, bn, _ = gen.benign_payload(dd)
+        pos = {f.id: f.offset_bits for f in dd.fields}
+        defs.append((dd, bp, bn, pos))
+    old = NMEA2000Decoder(build_network_map=True)
+    fresh = NMEA2000Decoder(build_network_map=True)
+    claim = traffic.render({"pgn": 60928, "src": 1, "dest": 255, "data": traffic.iso_name(11, 1855).to_bytes(8, "little")})
+    old.decode_tcp(claim)
+    fresh.decode_tcp(claim)
+    seen = {}
+    bad = 0
+    for i in range(n):
+        dd, bp, bn, pos = defs[(i // 64000) % 2]
+        j = i % 64000
+        p = (bp & ~(0xFF << pos["instance"]) & ~(0xFF << pos["source"])) | ((j % 250) << pos["instance"]) | ((j // 250) << pos["source"])
+        key = (dd.id, j % 250, j // 250)
+        pk = traffic.render({"pgn": dd.pgn, "src": 1, "dest": 255, "data": p.to_bytes(bn, "little")[:8]})
+        m = old.decode_tcp(pk)
+        ctx.count()
+        if m is None or m.hash is None:
+            bad += 1
+            if bad == 1:
+                ctx.report("C17|deep|hash-missing", f"message number {i + 1} decoded by one decoder ({len(seen)} distinct keys so far) has no hash",
+                           {"deep": n})
+            continue
+        if key in seen and seen[key] != m.hash:
+            ctx.report("C17|deep|split", f"key {key} hashed differently the second time (message {i + 1})", {"deep": n})
+        seen.setdefault(key, m.hash)
+        if i % 997 == 0 or i > n - 50:
+            f = fresh.decode_tcp(pk)
+            if f is None or f.hash != m.hash:
+                ctx.report("C17|deep|differs-from-fresh", f"message {i + 1}: the long-lived decoder computes {m.hash}, a fresh one {f.hash if f else None}", {"deep": n})
+    if len(set(seen.values())) != len(seen):
+        ctx.report("C17|deep|merged", f"{len(seen)} distinct keys share {len(set(seen.values()))} hashes", {"deep": n})
+    ctx.nontrivial_extra += len(seen)
+    ctx.klass("deep_history_distinct_keys", len(seen))
+
+
 def _siblings(ctx: Ctx, item):
     """All definitions of a multi-definition PGN decoded back to back on the same decoders from the same source (both orders):
     the hash of a message must not depend on what the decoder saw before."""
@@ -232,6 +278,9 @@ def _siblings(ctx: Ctx, item):
 
 def run(ctx: Ctx):
     pmap(ctx, _clients, [None])
+    import os
+    if not os.environ.get("VF_SUBPASS"):
+        pmap(ctx, _deep, [(70000 if ctx.quick else 300000,)])
     db = canboat.db()
     multi = [pgn for pgn, ds in db.by_pgn.items() if len(ds) > 1]
     pmap(ctx, _siblings, [([p],) for p in multi])
@@ -246,6 +295,11 @@ def run(ctx: Ctx):
 
 
 def replay(ctx: Ctx, case):
+    if case.get("deep"):
+        sub = Ctx(ctx.pid)
+        sub.known_open = {}
+        _deep(sub, (case["deep"],))
+        return [(b, v["what"], v["case"]) for b, v in sub.found.items()]
     if case.get("clientopts"):
         from .. import clientopts as co
         return co.replay("C17", _clients, case)
